@@ -24,7 +24,7 @@ if [ -f coq/model/Driver.vo ]; then
     ( cd ocaml/gen && timeout 300 coqc -Q ../../coq/gen Orq -Q ../../coq/model Orq ../../coq/extract/Extract.v >/dev/null ) || { echo "BUILD: extraction failed"; exit 4; }
   fi
   if [ ! -f ocaml/driver ] || [ ocaml/gen/model.ml -nt ocaml/driver ] || [ ocaml/driver.ml -nt ocaml/driver ]; then
-    ( cd ocaml && timeout 300 ocamlfind ocamlopt -O2 -w -a -I gen gen/model.mli gen/model.ml driver.ml -o driver >/dev/null 2>&1 ) || { echo "BUILD: driver build failed"; exit 4; }
+    ( cd ocaml && timeout 300 ocamlfind ocamlopt -O2 -w -a -I gen gen/model.mli gen/model.ml driver.ml -o driver.new >/dev/null 2>&1 && mv -f driver.new driver ) || { echo "BUILD: driver build failed"; exit 4; }
   fi
 else
   echo "BUILD: model did not compile"; exit 4
